@@ -27,6 +27,7 @@ def payloads(C):
     try:
         nodes.append(sch.text("T"))
         nodes.append(templates.build(sn, 'em("E")')[0])
+        nodes.append(templates.build(sn, 'em(strong("S"))')[0])
     except Exception:  # noqa: BLE001
         pass
     C.nodes = nodes
@@ -36,6 +37,10 @@ def payloads(C):
         if req:
             marks.append(mt.create({k: "foo" for k in req}))
             marks.append(mt.create({k: "bar" for k in req}))
+        elif mt.attrs and sn.startswith("mx"):
+            k0 = sorted(mt.attrs.keys())[0]
+            marks.append(mt.create({k0: 1}))
+            marks.append(mt.create({k0: 2}))
         else:
             marks.append(mt.create())
     C.marks = marks
